@@ -265,7 +265,7 @@ func genC10Doc(t *rapid.T) map[string]any {
 
 func genC10(t *rapid.T) any {
 	c := &C10Case{}
-	c.Class = rapid.SampledFrom([]string{"valid", "valid", "mutated", "mutated", "mutated", "bytes", "hostile", "hostile", "hostile-mutated", "fault", "fault", "fault", "cyclic-format", "join-on", "join-on"}).Draw(t, "class")
+	c.Class = rapid.SampledFrom([]string{"valid", "valid", "mutated", "mutated", "mutated", "bytes", "hostile", "hostile", "hostile-mutated", "fault", "fault", "fault", "cyclic-format", "join-on", "join-on", "scale"}).Draw(t, "class")
 	c.Opts = genC10Opts(t)
 	c.Proc = rapid.SampledFrom([]int{0, 0, 1, 2, 4}).Draw(t, "procs")
 	if rapid.IntRange(0, 3).Draw(t, "reexec") == 0 {
@@ -343,6 +343,100 @@ func genC10(t *rapid.T) any {
 		c.SQL = w.SQL(plant, q)
 		c.KSel = rapid.IntRange(0, 9).Draw(t, "ksel")
 		c.Panic = rapid.IntRange(0, 2).Draw(t, "panicmode")
+	case "scale":
+		// sizes far beyond the other classes: work and memory must stay proportional to the input
+		root := ""
+		if c.Opts.Wrapped {
+			root = "root."
+		}
+		switch rapid.SampledFrom([]string{"many-inner-arrays", "many-inner-arrays", "deep-nesting", "long-expression", "many-branches", "many-rows"}).Draw(t, "scale") {
+		case "many-inner-arrays":
+			n := rapid.IntRange(24, 64).Draw(t, "n")
+			grid := []any{}
+			for i := 0; i < n; i++ {
+				in := []any{}
+				for j := 0; j < rapid.IntRange(0, 2).Draw(t, fmt.Sprintf("g%d", i)); j++ {
+					in = append(in, map[string]any{"a": float64(i%5 + j), "s": fmt.Sprintf("s%d", i%3), "items": []any{map[string]any{"p": 1.0}}})
+				}
+				grid = append(grid, in)
+			}
+			c.Doc = map[string]any{"grid": grid, "t2": []any{map[string]any{"c": 1.0}}}
+			c.SQL = fmt.Sprintf(rapid.SampledFrom([]string{"SELECT * FROM %sgrid", "SELECT a, ASYNC.vf_id(a) AS v FROM %sgrid", "SELECT *, AWAIT(ASYNC.vf_id(a)) AS v FROM %sgrid", "SELECT *, (SELECT p FROM items) AS sb FROM %sgrid",
+				"SELECT DISTINCT * FROM %sgrid", "SELECT a FROM %sgrid WHERE a > 1 ORDER BY a DESC LIMIT 3", "SELECT * FROM `mix=>%sgrid`", "SELECT s, COUNT(*) AS n, SPINASYNC.vf_id(s) FROM %sgrid GROUP BY s",
+				"SELECT *, ONCE.vf_id(1) AS o, SPIN.vf_id(a) FROM %sgrid", "SELECT * FROM %sgrid WHERE EXISTS (SELECT p FROM items WHERE p = 1)"}).Draw(t, "q"), root)
+		case "deep-nesting":
+			depth := rapid.IntRange(5, 9).Draw(t, "depth")
+			var build func(d int) any
+			build = func(d int) any {
+				if d == 0 {
+					return []any{map[string]any{"a": 1.0}, map[string]any{"a": 2.0}}
+				}
+				return []any{build(d - 1), build(d - 1)}
+			}
+			c.Doc = map[string]any{"deep": build(depth)}
+			c.SQL = fmt.Sprintf(rapid.SampledFrom([]string{"SELECT * FROM %sdeep", "SELECT a, ASYNC.vf_id(a) AS v FROM %sdeep WHERE a > 1", "SELECT * FROM `mix=>%sdeep`", "SELECT DISTINCT a FROM %sdeep"}).Draw(t, "q"), root)
+		case "long-expression":
+			c.Doc = genC10Doc(t)
+			n := rapid.IntRange(100, 600).Draw(t, "n")
+			var sb strings.Builder
+			switch rapid.IntRange(0, 3).Draw(t, "form") {
+			case 0:
+				for i := 0; i < n; i++ {
+					if i > 0 {
+						sb.WriteString(" OR ")
+					}
+					fmt.Fprintf(&sb, "k = %d", i)
+				}
+				c.SQL = "SELECT k FROM " + root + "t WHERE " + sb.String()
+			case 1:
+				c.SQL = "SELECT k FROM " + root + "t WHERE " + strings.Repeat("(", n) + "k = 1" + strings.Repeat(")", n)
+			case 2:
+				for i := 0; i < n; i++ {
+					if i > 0 {
+						sb.WriteString(", ")
+					}
+					fmt.Fprintf(&sb, "%d", i)
+				}
+				c.SQL = "SELECT k FROM " + root + "t WHERE k IN (" + sb.String() + ")"
+			default:
+				for i := 0; i < n; i++ {
+					fmt.Fprintf(&sb, " + %d", i)
+				}
+				c.SQL = "SELECT k" + sb.String() + " AS e FROM " + root + "t"
+			}
+		case "many-branches":
+			c.Doc = genC10Doc(t)
+			n := rapid.IntRange(10, 40).Draw(t, "n")
+			var parts []string
+			if rapid.Bool().Draw(t, "ctes") {
+				prev := root + "t"
+				for i := 0; i < n; i++ {
+					parts = append(parts, fmt.Sprintf("c%d AS (SELECT * FROM %s)", i, prev))
+					prev = fmt.Sprintf("c%d", i)
+				}
+				c.SQL = "WITH " + strings.Join(parts, ", ") + " SELECT * FROM " + prev
+			} else {
+				for i := 0; i < n; i++ {
+					parts = append(parts, fmt.Sprintf("SELECT k, %d AS i FROM %st", i%3, root))
+				}
+				c.SQL = strings.Join(parts, rapid.SampledFrom([]string{" UNION ", " UNION ALL "}).Draw(t, "op"))
+			}
+		default:
+			n := rapid.IntRange(200, 600).Draw(t, "n")
+			rows, rows2 := []any{}, []any{}
+			for i := 0; i < n; i++ {
+				rows = append(rows, map[string]any{"k": float64(i % 17), "s": fmt.Sprintf("s%d", i%7), "v": float64(i) / 2, "items": []any{}})
+				if i%3 == 0 {
+					rows2 = append(rows2, map[string]any{"c": float64(i % 17), "k": float64(i)})
+				}
+			}
+			c.Doc = map[string]any{"t": rows, "t2": rows2}
+			c.SQL = fmt.Sprintf(rapid.SampledFrom([]string{"SELECT * FROM %[1]st x JOIN %[1]st2 y ON x.k = y.c", "SELECT * FROM %[1]st x PARALLEL LEFT JOIN %[1]st2 y ON x.k < y.c AND x.v > y.k", "SELECT s, COUNT(*) AS n, SUM(v) AS sv FROM %[1]st GROUP BY s",
+				"SELECT DISTINCT k, s FROM %[1]st ORDER BY k DESC, s LIMIT 10 OFFSET 5", "SELECT k, ASYNC.vf_id(v) AS a, SPINASYNC.vf_id(s) FROM %[1]st WHERE k IN (SELECT c FROM `<-t2`)", "SELECT k FROM %[1]st WHERE s LIKE '%%1%%' OR v BETWEEN 3 AND 90"}).Draw(t, "q"), root)
+			if strings.Contains(c.SQL, "<-") && c.Opts.Wrapped {
+				c.SQL = strings.Replace(c.SQL, "`<-t2`", "`<-root.t2`", 1)
+			}
+		}
 	case "cyclic-format":
 		w := genWide(t, []string{"sel-sub", "sel-sub-root", "star-sub", "exists", "in-sub"})
 		c.Doc = w.Doc
@@ -425,7 +519,7 @@ func checkC10(c *C10Case) Result {
 		if parsed {
 			res.Labels = append(res.Labels, "reaches-build")
 		}
-		res.NonTrivial = parsed || c.Class == "fault" || c.Class == "cyclic-format" || c.Class == "mutated" || c.Class == "hostile-mutated"
+		res.NonTrivial = parsed || c.Class == "fault" || c.Class == "cyclic-format" || c.Class == "mutated" || c.Class == "hostile-mutated" || c.Class == "scale"
 	}
 	return res
 }
